@@ -82,7 +82,7 @@ CLAIMS = {
         technique="finite-ordering abstract interpretation of MIR (exhaustive over orderings) + must-call / ordering dominance",
         text="The incumbent-replacement code of all three populations is evaluated exhaustively over the finite space of abstract orderings "
              "(Less/Equal/Greater x Some/None), every add_all impl is shown to offer each individual to the comparison on every path, and Elitism's "
-             "extend ≺ sort(total_order(a,b)) ≺ truncate order is checked by dominance. Not decided: size bounds, selection non-emptiness, seeded-solve corollary.",
+             "extend ≺ sort(total_order(a,b)) ≺ truncate order is checked by dominance. The elite of the self-organising population is ranked by the main objective (no maybe_change on it). Not decided: size bounds, selection non-emptiness, seeded-solve corollary.",
         note="Trusted: std Vec::sort_by/dedup_by/truncate contracts; total_order is a total preorder (C09).",
         ref="DESIGN.md §5 C08"),
     "C09": dict(
@@ -179,7 +179,7 @@ CLAIMS = {
              "every gamma call gets shape > 0 and scale > 0 and every normal call a std >= 0 with no division by a possibly-zero value on the sampling path; the "
              "distance reward is >= 0, the performance multiplier lies in its finite constant set within (~0.5, 3] and the reward fed to the learner is >= 0; the "
              "arg-max comparator answers the true order of two samples (ties random); termination estimates are clamped to [0,1]; the variation criterion folds over "
-             "all objectives from true, an objective above the threshold blocks it, and its verdict is reported iff global or in the exploitation phase. Not decided: "
+             "all objectives from true, an objective above the threshold blocks it, and its verdict is reported iff global or in the exploitation phase. The relative fitness distance is |a - b| / max(|a|, |b|) of the same two values (bounded); the variation window is addressed by the generation counter. Not decided: "
              "finiteness (NaN/inf) of the state, mean within the hull of rewards, the reward upper bound 6, the value of the coefficient of variation, window bookkeeping.",
         note="Assumes a gamma variate is >= 0 and finite rewards; float rounding/overflow is outside the sign domain.",
         ref="DESIGN.md §5 C18"),
